@@ -45,27 +45,50 @@ fn pin_ray(mb: &sym::Mailbox, k: u8, df: i8, dr: i8, player: Player, orth: bool)
     result
 }
 
-//@ obligation: C01.pins.exact
-//@ domain: complete
-//@ functions: chess/movegen/pins.rs::get_pins
-//@ timeout: 1500
-//@ mem_gb: 8
-//@ note: fully symbolic board x any colour x any king square: the orthogonal (diagonal) mask is exactly the union, over the four rook (bishop) directions from the king square, of the ray up to and including an enemy rook/queen (bishop/queen) reached with at most one piece in between, that piece being ours -- i.e. pin rays and the rays of direct slider checks, nothing else
-//@ assumes: table lookups == coordinate geometry (C07)
-#[kani::proof]
-#[kani::unwind(10)]
-//@@stubs-tables
-fn vk_c01_pins_exact() {
+fn pins_case(orth: bool) {
     let mb = sym::any_mailbox();
     let board = sym::board_of(&mb);
     let player = geo::any_player();
     let k = geo::any_square();
     let (o, d) = get_pins(&board, player, k);
     let ki = k.idx();
-    let want_o = pin_ray(&mb, ki, 0, 1, player, true) | pin_ray(&mb, ki, 1, 0, player, true)
-        | pin_ray(&mb, ki, 0, -1, player, true) | pin_ray(&mb, ki, -1, 0, player, true);
-    let want_d = pin_ray(&mb, ki, 1, 1, player, false) | pin_ray(&mb, ki, 1, -1, player, false)
-        | pin_ray(&mb, ki, -1, -1, player, false) | pin_ray(&mb, ki, -1, 1, player, false);
-    kani::cover!(want_o.count_ones() > 3 && want_d.count_ones() > 3);
-    assert!(o.as_u64() == want_o && d.as_u64() == want_d);
+    if orth {
+        let want_o = pin_ray(&mb, ki, 0, 1, player, true) | pin_ray(&mb, ki, 1, 0, player, true)
+            | pin_ray(&mb, ki, 0, -1, player, true) | pin_ray(&mb, ki, -1, 0, player, true);
+        kani::cover!(want_o.count_ones() > 5);
+        assert!(o.as_u64() == want_o);
+    } else {
+        let want_d = pin_ray(&mb, ki, 1, 1, player, false) | pin_ray(&mb, ki, 1, -1, player, false)
+            | pin_ray(&mb, ki, -1, -1, player, false) | pin_ray(&mb, ki, -1, 1, player, false);
+        kani::cover!(want_d.count_ones() > 5);
+        assert!(d.as_u64() == want_d);
+    }
+}
+
+//@ obligation: C01.pins.orthogonal
+//@ domain: complete
+//@ functions: chess/movegen/pins.rs::get_pins
+//@ timeout: 1500
+//@ mem_gb: 8
+//@ note: fully symbolic board x any colour x any king square: the orthogonal mask is exactly the union, over the four rook directions from the king square, of the ray up to and including an enemy rook/queen reached with at most one piece in between, that piece being ours -- i.e. pin rays and the rays of direct slider checks, nothing else
+//@ assumes: table lookups == coordinate geometry (C07)
+#[kani::proof]
+#[kani::unwind(10)]
+//@@stubs-tables
+fn vk_c01_pins_orthogonal() {
+    pins_case(true);
+}
+
+//@ obligation: C01.pins.diagonal
+//@ domain: complete
+//@ functions: chess/movegen/pins.rs::get_pins
+//@ timeout: 1500
+//@ mem_gb: 8
+//@ note: the same for the diagonal mask (four bishop directions, enemy bishop/queen)
+//@ assumes: table lookups == coordinate geometry (C07)
+#[kani::proof]
+#[kani::unwind(10)]
+//@@stubs-tables
+fn vk_c01_pins_diagonal() {
+    pins_case(false);
 }
